@@ -252,14 +252,16 @@ theorem C05_crash_witness_initial_height_recovers :
 data 3 are delivered; the node is stopped cleanly (cache files: header 3 and data 3 cached and seen) and restarted;
 data 2 and header 2 arrive, blocks 2 and 3 are being applied (6 writes) and the process dies after 4 of them
 (block 3 saved, its state not: recorded height 2).  `NewManager` on that image with the stale cache files gives a
-node at height 2 holding header 3 and data 3 in its caches; **without the start of the loop** every event of the
-chain delivered again is dropped (heights ≤ 2: below the chain height; header 3 and data 3: already seen) and the node
-stays at height 2 — the former behaviour, replayed on the real node by stream C05
+node at height 2 holding header 3 and data 3 in its caches (the next block is applicable, nothing applies it);
+**without the start of the loop** every header of the chain delivered again is dropped (heights ≤ 2: below the chain
+height; header 3: already seen) and the node stays at height 2 — at the end of a chain of empty blocks for ever; the
+former behaviour, replayed on the real node by stream C05
 (`C05/after-crash/…/stall/stale-cache-files`); `Sync.boot` applies block 3 at once: height 3 = state height, the
 whole chain held. -/
 theorem C05_stale_cache_witness :
     (deliver wch3 wStaleBefore (.hdr 2)).2.length = 6 ∧ wGen.store.height = 1 ∧ recHeight wC wStaleImage = 2 ∧
-    (Sync.start wC wStaleImage wGen).map (fun p => (p.1.store.height, (runFrom wC wch3 p.1 wAll).store.height)) = some (2, 2) ∧
+    (Sync.start wC wStaleImage wGen).map (fun p => (p.1.store.height, decide (3 ∈ keysH p.1 ∧ 3 ∈ keysD p.1),
+       (runFrom wC wch3 p.1 [.ev (.hdr 1), .ev (.hdr 2), .ev (.hdr 3)]).store.height)) = some (2, true, 2) ∧
     (Sync.boot wC wStaleImage wGen).map (fun p => (p.1.store.height, p.1.lastState.lastHeight, holdsChain3 p.1.store, p.1.alive))
       = some (3, 3, true, true) :=
   wf_stale
